@@ -8,8 +8,8 @@ ID = 'C11'
 HARNESS = {'asan': ['xv_regex']}
 RULE = ('one case = one generated M6 pattern (XML Schema dialect, option X) with its subject set: every string over the pattern\'s own '
         'alphabet (<=4 symbols, incl. a sentinel tail symbol for half of the patterns) up to length 5 (4 on the quick tier when the alphabet has '
-        '4 symbols) + sampled members, one-edit neighbours of members and random strings up to length 40 (12 when the pattern nests variable '
-        'quantifiers) over the curated alphabet incl. supplementary characters; per case also: well-formed => constructor does not throw, 2 '
+        '4 symbols) + sampled members, one-edit neighbours of members and random strings up to length 40 (12 when a variable quantifier spans more than one atom, 7 when quantifiers nest 3 deep) '
+        'over the curated alphabet incl. supplementary characters; per case also: well-formed => constructor does not throw, 2 '
         'malformed mutations => ParseException, option/Match/fresh-object/reuse-order variants and the window form on a subject subset '
         '(metamorphic against the primary verdict), and for every 3rd case the same pattern in the non-schema dialect (search verdict, match '
         'positions, F/H independence, tokenize/replace/allMatches consistency). non-trivial = pattern has >=1 quantifier or class operation '
@@ -116,7 +116,9 @@ def build_subjects(c, lang, syms, tier):
         frontier = [p + ch for p in frontier for ch in syms]
         out.extend(frontier)
     nshort = len(out)
-    maxlen = 12 if rm.is_risky(lang.ast) else 40
+    # bound the backtracking cost of BOTH backtracking engines involved (Xerces and the Python `re` witness, which has no watchdog)
+    qd = rm.quant_depth(lang.ast)
+    maxlen = (7 if qd >= 3 else 12) if rm.is_risky(lang.ast) else 40
     safe = [ch for ch in rm.UNIVERSE if ch not in lang.unsafe]
     longs = []
     members = []
